@@ -60,20 +60,38 @@ func judgeC05(c *Cfg, sc *scen.Scenario, ref []string, o *scen.Outcome, record b
 			break
 		}
 	}
-	got := keysOf(o.Events)
+	// batch item calls are not part of this property (C11 decides what a cancelled batch does with its items)
+	noItems := func(keys []string) []string {
+		var out []string
+		for _, k := range keys {
+			if !strings.Contains(k, ".item.") {
+				out = append(out, k)
+			}
+		}
+		return out
+	}
+	got := noItems(keysOf(o.Events))
+	ref = noItems(ref)
+	// "cut short" = the cancelled run made only some of the callbacks the un-cancelled run makes, in the same
+	// order (a subsequence: a strict prefix in the usual case, but skipped retry attempts count as well)
 	prefix := len(got) <= len(ref)
 	if prefix {
-		for i := range got {
-			if got[i] != ref[i] {
+		j := 0
+		for _, k := range got {
+			for j < len(ref) && ref[j] != k {
+				j++
+			}
+			if j == len(ref) {
 				prefix = false
 				break
 			}
+			j++
 		}
 	}
 	switch {
 	case !prefix:
 		if record {
-			c.Rep.Count("unjudged.not_a_prefix", 1)
+			c.Rep.Count("unjudged.not_a_subsequence", 1)
 		}
 	case len(got) < len(ref): // cut short
 		if record {
@@ -94,10 +112,10 @@ func judgeC05(c *Cfg, sc *scen.Scenario, ref []string, o *scen.Outcome, record b
 
 func runC05(c *Cfg) {
 	r := c.Rep
-	nb := c.Pick(300, 5000)
+	nb := c.Pick(2000, 30000)
 	parallel(c, nb, func(i int) {
 		rg := c.Rng("c05", i)
-		base := scen.GenFlowScenario(rg, scen.GenOpts{MaxNodes: 8, MaxActions: 4, MaxDepth: 4, Failures: true, MaxVisits: 3, Batch: true})
+		base := scen.GenFlowScenario(rg, scen.GenOpts{MaxNodes: 8, MaxActions: 4, MaxDepth: 4, Failures: true, MaxVisits: 3, Batch: true, CtxAwareErrs: true})
 		base.Runs = 1
 		base.Rewire = nil
 		if i%6 == 0 {
@@ -112,6 +130,9 @@ func runC05(c *Cfg) {
 		r.EvalN(1)
 		r.Count("reference.runs", 1)
 		kinds := []string{"cancel", "deadline"}
+		if i%3 == 0 {
+			kinds = []string{"cancel-cause", "deadline"}
+		}
 		for p := 0; p < len(ref); p++ {
 			for _, k := range kinds {
 				v := base.Clone()
